@@ -22,7 +22,7 @@ import numpy as np
 from harness import c10_lib as L
 from harness import core
 
-PROP_MODULES = ["OV.Props.C10"]
+PROP_MODULES = ["OV.Props.C10", "OV.Props.C10Table"]
 SRC = [
     ("onnxscript/version_converter/_version_converter.py",
      ["version_supported", "_get_onnx_opset_version", "_set_onnx_opset_version", "dft_19_20", "gridsample_19_20",
@@ -283,6 +283,8 @@ class CapiSpy:
     def __enter__(self):
         def spy(proto, target_version):
             self.called = True
+            self.seen_inputs = [i.name for i in proto.graph.input]
+            self.seen_inits = [i.name for i in proto.graph.initializer]
             r = self.orig(proto, target_version)
             self.ok = True
             return r
@@ -360,7 +362,8 @@ def run_real(case: dict):
             except Exception:  # noqa: BLE001
                 out["after_proto"] = None
             out["after_ir"] = m
-    out.update(err=err, capi_called=spy.called, capi_ok=spy.ok, before_proto=before)
+    out.update(err=err, capi_called=spy.called, capi_ok=spy.ok, before_proto=before,
+               capi_seen=(getattr(spy, "seen_inputs", None), getattr(spy, "seen_inits", None)))
     return out
 
 
@@ -960,6 +963,126 @@ def check_cases(run, drv, cases, stats: Counter):
             line = " ".join(toks)
         lines.append(line)
     outs = drv.ask(lines)
+    # second stream: the fallback route in detail (call_onnx_api view, finally-restore, recovery loop), exact orders
+    fb_cases = [(c, r) for c, r in zip(cases, reals) if r["capi_called"] and not c["funcs"] and r["after_proto"] is not None]
+    fb_lines = []
+    for c, r in fb_cases:
+        bp = r["before_proto"]
+        ins = ",".join(i.name for i in bp.graph.input) or "-"
+        its = ",".join(f"{t.name}:{int(np.prod(t.dims)) if len(t.dims) else 1}" for t in bp.graph.initializer) or "-"
+        fb_lines.append(f"fallback in={ins} init={its}")
+    for (c, r), mo in zip(fb_cases, drv.ask(fb_lines)):
+        f = dict(p.split("=", 1) for p in mo.split(" "))
+        lst = lambda x: [] if x == "-" else x.split(",")  # noqa: E731
+        seen_in, seen_init = r["capi_seen"]
+        ap = r["after_proto"]
+        real_in = [i.name for i in ap.graph.input]
+        real_init = [t.name for t in ap.graph.initializer]
+        stats["fallback_route_cases"] += 1
+        want_in, want_init = (lst(f["ok_in"]), lst(f["ok_init"])) if r["capi_ok"] else (lst(f["fail_in"]), lst(f["fail_init"]))
+        if seen_in != lst(f["prep_in"]) or seen_init != lst(f["prep_init"]):
+            tie.append((c, f"call_onnx_api view: impl inputs={seen_in} inits={seen_init} ; model inputs={f['prep_in']} inits={f['prep_init']}"))
+        elif real_in != want_in or real_init != want_init:
+            tie.append((c, f"fallback route ({'ok' if r['capi_ok'] else 'failed'}): impl inputs={real_in} inits={real_init} ; model inputs={want_in} inits={want_init}"))
+        stats["fallback_" + ("ok" if r["capi_ok"] else "failed")] += 1
+        if any(len(t.dims) and int(np.prod(t.dims)) > 1000 for t in r["before_proto"].graph.initializer):
+            stats["fallback_with_stripped_initializer"] += 1
+    # third stream: names of the values the adapters create (collect + first-unused-counter loop)
+    import re as _re
+
+    def proto_names(g, acc):
+        for i in g.input:
+            acc.append(i.name)
+        for n in g.node:
+            acc.extend(x for x in n.input if x)
+            acc.extend(x for x in n.output if x)
+            for a in n.attribute:
+                if a.type == 5:
+                    proto_names(a.g, acc)
+                elif a.type == 10:
+                    for sg in a.graphs:
+                        proto_names(sg, acc)
+        return acc
+
+    def defined_in_order(g, acc):
+        for n in g.node:
+            for a in n.attribute:
+                if a.type == 5:
+                    defined_in_order(a.g, acc)
+            acc.extend(x for x in n.output if x)
+        return acc
+
+    def repl_size(op, s_, t_):
+        if not creates_values(op, s_, t_) and not (op["k"] == "GS" and crosses(s_, t_, 19) and 18 <= t_ <= 25 and op["mode"] in ("bilinear", "bicubic")):
+            return 0
+        if op["k"] == "GS":
+            return 1
+        if op["k"] == "DFT":
+            return 2
+        static = op["xVis"] == "k" and op["sVis"] == "k" and op["bVis"] == "k"
+        return 10 if static else 17
+
+    nm_cases = [(c, r) for c, r in zip(cases, reals)
+                if c["entry"] in ("ir", "proto") and not c["funcs"] and not c.get("adversarial") and r["err"] == "none"
+                and not r["capi_called"] and r["after_proto"] is not None and c["decl"] is not None and c["decl"] < c["target"]]
+    nm_lines, nm_real = [], []
+    for c, r in nm_cases:
+        before_names = set(proto_names(r["before_proto"].graph, []))
+        used = sorted({int(m.group(1)) for n in before_names for m in [_re.fullmatch(r"val_(\d+)", n)] if m})
+        sizes = [z for z in (repl_size(n["op"], c["decl"], c["target"]) for n in all_case_nodes(c) if n["d"] == 1) if z]
+        nm_lines.append(f"names used={','.join(map(str, used)) or '-'} sizes={','.join(map(str, sizes)) or '-'}")
+        new = [n for n in defined_in_order(r["after_proto"].graph, []) if n not in before_names]
+        nm_real.append([int(m.group(1)) if m else n for n in new for m in [_re.fullmatch(r"val_(\d+)", n)]])
+    for (c, r), line, mo, real_new in zip(nm_cases, nm_lines, drv.ask(nm_lines), nm_real):
+        want = [int(x) for part in mo.split(";") for x in part.split(",") if x] if mo not in ("", "bad-op") else []
+        stats["names_cases"] += 1
+        if real_new:
+            stats["names_cases_with_new_values"] += 1
+        if "used=-" not in line and real_new:
+            stats["names_cases_with_val_names_in_source"] += 1
+        if mo == "bad-op" or sorted(x for x in real_new if isinstance(x, int)) != sorted(want) or any(not isinstance(x, int) for x in real_new):
+            tie.append((c, f"adapter-created value names: impl {real_new} ; model {mo} ({line})"))
+    # fourth stream: opset imports through inline / remove-unused / bump / proto rebuild
+    def doms(nodes, acc, skip_calls=True):
+        for n in nodes:
+            if not (skip_calls and n.domain == "fn"):
+                acc.append(n.domain if n.domain != "ai.onnx" else "")
+            for a in n.attribute:
+                if a.type == 5:
+                    doms(a.g.node, acc, skip_calls)
+                elif a.type == 10:
+                    for sg in a.graphs:
+                        doms(sg.node, acc, skip_calls)
+        return acc
+
+    at = lambda d: d if d else "@"  # noqa: E731
+    im_cases = [(c, r) for c, r in zip(cases, reals)
+                if c["entry"] in ("ir", "proto") and r["err"] == "none" and not (r["capi_called"] and r["capi_ok"])
+                and r["after_proto"] is not None and c["decl"] is not None and c["ai"] is None]
+    im_lines, im_keep = [], []
+    for c, r in im_cases:
+        bp, ap = r["before_proto"], r["after_proto"]
+        declared_after = {o.domain: o.version for o in ap.opset_import}.get("")
+        if declared_after != c["target"]:
+            continue  # not converted (refused / C API failed): the imports are not rebuilt for a new target
+        fmap = {f.name: f for f in bp.functions}
+        fs = []
+        for n in bp.graph.node:
+            if n.domain == "fn" and n.op_type in fmap:
+                f = fmap[n.op_type]
+                fs.append("f=" + ",".join(f"{at(o.domain)}:{o.version}" for o in f.opset_import) + "/"
+                          + (",".join(sorted({at(d) for d in doms(f.node, [])})) or "-"))
+        im_lines.append(" ".join(["imports", str(c["target"]),
+                                  "imp=" + ",".join(f"{at(o.domain)}:{o.version}" for o in bp.opset_import),
+                                  "used=" + (",".join(sorted({at(d) for d in doms(bp.graph.node, [])})) or "-")] + fs))
+        im_keep.append((c, r))
+    for (c, r), line, mo in zip(im_keep, im_lines, drv.ask(im_lines)):
+        real = sorted(f"{at(o.domain)}:{o.version}" for o in r["after_proto"].opset_import)
+        stats["imports_cases"] += 1
+        if " f=" in line and "priv" in line:
+            stats["imports_cases_private_domain_via_function"] += 1
+        if mo == "bad-op" or sorted(x for x in mo.split(",") if x) != real:
+            tie.append((c, f"opset imports after conversion: impl {real} ; model {mo} ({line})"))
     for c, r, mo in zip(cases, reals, outs):
         stats["cases"] += 1
         stats[f"entry_{c['entry']}"] += 1
@@ -1032,6 +1155,14 @@ def main(run: core.Run) -> None:
         "call depth 1; GroupNormalization with num_groups = 0 or rank(x) < 2 "
         "(Python ZeroDivisionError / IndexError inside the adapter) is outside the model and not generated",
     ]
+    # translator part of the tie: adapter registry and constants, regenerated from the source on every run
+    try:
+        from harness import c10_extract
+
+        table = c10_extract.regenerate()
+        run.coverage["registry_from_source"] = [list(r) for r in table["rows"]]
+    except Exception as e:  # noqa: BLE001
+        raise core.Infra(f"cannot read the adapter registry from {core.REPO}: {e}") from e
     audit = run.prove(PROP_MODULES)
     drv = core.Driver("C10")
     stats: Counter = Counter()
@@ -1099,7 +1230,7 @@ def main(run: core.Run) -> None:
         nat.append(c)
     batch(nat)
     # 4. adversarial tie-only cases
-    batch([gen_adversarial(run.rng) for _ in range(run.size(900, 12000))])
+    batch([gen_adversarial(run.rng) for _ in range(run.size(700, 12000))])
 
     # 5. numerics on a sample of judged, runnable, natively converted cases
     import onnx
@@ -1109,7 +1240,7 @@ def main(run: core.Run) -> None:
     pool = [c for c in cases if c["entry"] == "proto" and runnable(c) and 18 <= c["decl"] < c["target"] <= 25
             and c["shape"] in ("gs", "dft", "gn", "mix", "sub", "func")]
     run.rng.shuffle(pool)
-    for c in pool[: run.size(120, 600)]:
+    for c in pool[: run.size(90, 600)]:
         r = run_real(c)
         if r["err"] != "none" or r["after_proto"] is None:
             continue
@@ -1177,9 +1308,12 @@ def main(run: core.Run) -> None:
               "branch_capi-fail", "branch_native-direct", "branch_inline-error", "err_VersionConverterError",
               "err_ValueError", "with_subgraph", "with_functions", "op_GN", "op_DFT", "op_GS",
               "subgraph_nesting_depth_2", "subgraph_nesting_depth_3", "function_with_private_domain",
-              "val_named_body_outputs_then_rewrite", "capi_ok_big_initializer_also_input"]
+              "val_named_body_outputs_then_rewrite", "capi_ok_big_initializer_also_input",
+              "fallback_ok", "fallback_failed", "fallback_with_stripped_initializer",
+              "names_cases_with_new_values", "names_cases_with_val_names_in_source",
+              "imports_cases", "imports_cases_private_domain_via_function"]
     missing = [k for k in needed if stats[k] == 0]
-    if missing:
+    if missing and not run.violations:  # a behavioural difference is reported as such, never as exit 2
         raise core.Infra(f"generator degenerated: never produced {missing}")
     run.coverage.update(
         evaluations=stats["cases"],
